@@ -61,6 +61,12 @@ func c01Gen(c *vfCtx, emit func(c01Case)) {
 	for _, b := range []string{long, long + "\n", "a\n" + long, long + "\n---\n" + long} {
 		emit(c01Case{Family: "A-long", Tests: []vfTestExec{{Name: "TestA", Calls: []vfCall{snap(b), snap("a")}}}})
 	}
+	// a single line of one and of two MiB (a minified bundle, a base64 payload), alone and followed by another entry of the same file
+	for _, n := range []int{1 << 20, 1<<21 + 1} {
+		huge := strings.Repeat("z", n)
+		emit(c01Case{Family: "A-mib", Tests: []vfTestExec{{Name: "TestA", Calls: []vfCall{snap(huge), snap("a")}}, {Name: "TestB", Calls: []vfCall{snap("b")}}}})
+		emit(c01Case{Family: "A-mib", Tests: []vfTestExec{{Name: "TestA", Calls: []vfCall{snap("k: " + huge + "\nend"), {API: "json", Val: `{"a":"` + huge + `"}`}}}}})
+	}
 	// A2: one test, two calls, all ordered pairs of bodies
 	// thorough: all one-line bodies over the full alphabet plus all two-line bodies over the core one
 	pairBodies := []string{}
